@@ -212,6 +212,60 @@ fn main() {
         "window" => window(&a[2], a[3].parse().unwrap()),
         // filter <neg 0|1> <Op> <xclass> <x> <litclass> <lit>: does `.where(expr)` accept the event iff a one-step sequence with the same
         // filter (translated by the real expr_to_sase_predicate, matched by the real SaseEngine) matches it?
+        // join <window_ms> {<source> <ts_ms>}*: feed events (all with key k=1) to a two-source JoinBuffer (A, B); after every event compare
+        // "a joined event came out" with the specification: every source has an event whose timestamp is within window of the arriving one
+        // (ts >= arriving - window), among the events seen so far (bounded by max_events_per_key, not reached here)
+        "join" => {
+            use chrono::{Duration, TimeZone, Utc};
+            use varpulis_runtime::join::JoinBuffer;
+            if a[2] == "probe" {
+                // every arrival history of 1..4 events over sources {A, B} and timestamps {0, 5, 10, 12, 16} s, window 7 s, against the specification
+                let times = [0i64, 5000, 10000, 12000, 16000]; let window = 7000i64;
+                let mut bad = Vec::new(); let mut count = 0usize;
+                for len in 1..=4usize {
+                    let total = (times.len() * 2).pow(len as u32);
+                    for id in 0..total {
+                        let mut keys = rustc_hash::FxHashMap::default(); keys.insert("A".to_string(), "k".to_string()); keys.insert("B".to_string(), "k".to_string());
+                        let mut jb = JoinBuffer::new(vec!["A".into(), "B".into()], keys, Duration::milliseconds(window));
+                        let mut seen: Vec<(&str, i64)> = Vec::new(); let mut x = id;
+                        for _ in 0..len {
+                            let c = x % (times.len() * 2); x /= times.len() * 2;
+                            let (src, ts) = (if c % 2 == 0 { "A" } else { "B" }, times[c / 2]);
+                            let mut ev = Event::new(src).with_field("k", Value::Int(1));
+                            ev.timestamp = Utc.timestamp_millis_opt(ts).unwrap();
+                            let out = jb.add_event(src, ev);
+                            seen.push((src, ts));
+                            // the buffer may (lazily) drop an event once some arrival is more than `window` ahead of it: a join is REQUIRED when every source
+                            // has an event within the window of the arriving one that was never expirable, and FORBIDDEN when some source has none within the window
+                            let horizon = seen.iter().map(|(_, t)| *t).max().unwrap();
+                            let must = ["A", "B"].iter().all(|s| seen.iter().any(|(y, t)| y == s && *t >= ts - window && *t >= horizon - window));
+                            let may = ["A", "B"].iter().all(|s| seen.iter().any(|(y, t)| y == s && *t >= ts - window));
+                            if ((must && out.is_none()) || (!may && out.is_some())) && bad.len() < 3 { bad.push(format!("history {seen:?} (window {window} ms): joined = {}, required = {must}, allowed = {may}", out.is_some())) }
+                        }
+                        count += 1;
+                    }
+                }
+                if bad.is_empty() { println!("OK join probe: {count} histories agree with the specification") } else { println!("REPRODUCED join: {}", bad.join("; ")) }
+                return;
+            }
+            let window: i64 = a[2].parse().unwrap();
+            let mut keys = rustc_hash::FxHashMap::default(); keys.insert("A".to_string(), "k".to_string()); keys.insert("B".to_string(), "k".to_string());
+            let mut jb = JoinBuffer::new(vec!["A".into(), "B".into()], keys, Duration::milliseconds(window));
+            let mut seen: Vec<(String, i64)> = Vec::new(); let mut bad = Vec::new();
+            let mut i = 3;
+            while i + 1 < a.len() {
+                let (src, ts): (String, i64) = (a[i].clone(), a[i + 1].parse().unwrap()); i += 2;
+                let mut ev = Event::new(src.as_str()).with_field("k", Value::Int(1)).with_field("n", Value::Int(seen.len() as i64));
+                ev.timestamp = Utc.timestamp_millis_opt(ts).unwrap();
+                let out = jb.add_event(&src, ev);
+                seen.push((src.clone(), ts));
+                let horizon = seen.iter().map(|(_, t)| *t).max().unwrap();
+                let must = ["A", "B"].iter().all(|s| seen.iter().any(|(x, t)| x == s && *t >= ts - window && *t >= horizon - window));
+                let may = ["A", "B"].iter().all(|s| seen.iter().any(|(x, t)| x == s && *t >= ts - window));
+                if (must && out.is_none()) || (!may && out.is_some()) { bad.push(format!("after {} @ {ts} ms (events so far {seen:?}, window {window} ms): joined = {}, required = {must}, allowed = {may}", src, out.is_some())) }
+            }
+            if bad.is_empty() { println!("OK join: {} events agree with the specification", seen.len()) } else { println!("REPRODUCED join: {}", bad.join("; ")) }
+        }
         "seqstep" => {
             // bounded probe of "every reported match is a genuine occurrence" through SaseEngine::process: SEQ(S as s, X [filter] as t) and
             // SEQ(S as s, X [filter] as t, Y as u) over every stream of 4 events from a 6-event alphabet; every reported match is checked against
